@@ -133,7 +133,7 @@ def boundary_exec_cases():
             for b in small:
                 c.append('%s %s %s' % (a, op, b))
     for op in ['+=', '-=', '*=', '/=', '%=', '<<=', '>>=', '&=', '|=', '^=']:
-        for a in ['1', '(-9223372036854775808)', '9223372036854775807', '79228162514264337593543950335', '5']:
+        for a in ['0', '1', '(-1)', '0.5', '(-9223372036854775808)', '9223372036854775807', '79228162514264337593543950335', '5']:
             for b in ['0', '(-1)', '1', '64', '4294967296', '8589934592', '9223372036854775807', '79228162514264337593543950335']:
                 c.append('a = %s; a %s %s; a' % (a, op, b))
     for f in ['sum', 'mul', 'min', 'max']:
@@ -219,6 +219,11 @@ SCRIPTS = [
         ('exec', '3 ≥ 2', {}), ('exec', '¬ true', {}), ('exec', '370 °', {}), ('parse', '≥', {}), ('exec', '2 ×÷ 3 ≥ 1', {}), ('parse', 'a≥b', {})],
        expect=[None, None, None, None, ('val', 'List([String("ge"), Number(3), Number(2)])'), ('val', 'List([String("neg"), Bool(true)])'), ('val', 'List([String("deg"), Number(370)])'), ('reject',),
                ('val', 'List([String("ge"), List([String("md"), Number(2), Number(3)]), Number(1)])'), None]),
+  dict(name='reregistration_replaces_precedence_and_associativity', steps=[('reg_infix', 'rr', dict(tag='rr', p='130', assoc='L')), ('parse', '10 rr 3 + 2', {}), ('reg_infix', 'rr', dict(tag='rr2', p='100', assoc='L')), ('parse', '10 rr 3 + 2', {}), ('parse', '10 rr 3 rr 2', {}),
+        ('reg_infix', 'rr', dict(tag='rr3', p='100', assoc='R')), ('parse', '10 rr 3 rr 2', {}), ('exec', '1 rr 2', {}), ('reg_infix', '%', dict(tag='pct', p='109', assoc='L')), ('parse', '1 + 7 % 4', {}), ('parse', '9 - 7 % 4 * 2', {})],
+       expect=[None, ('table',), None, ('table',), ('table',), None, ('table',), ('val', 'List([String("rr3"), Number(1), Number(2)])'), None, ('table',), ('table',)]),
+  dict(name='multi_byte_operator_followed_directly_by_text', steps=[('reg_infix', '≠', dict(tag='ne', p='60', assoc='L')), ('parse', 'a ≠ bc', {}), ('exec', '10 ≠ 10', {}), ('parse', 'x ≠ "q"', {}), ('parse', 'a ≠b', {}), ('parse', '(a ≠ b)', {})],
+       expect=[None, ('ast', 'Binary("≠", Reference("a"), Reference("bc"))'), ('val', 'List([String("ne"), Number(10), Number(10)])'), ('ast', 'Binary("≠", Reference("x"), Literal(String("q")))'), None, ('ast', 'Binary("≠", Reference("a"), Reference("b"))')]),
   dict(name='postfix_registered_after_use', steps=[('parse', '5!!', {}), ('reg_postfix', '!!', dict(tag='ff')), ('parse', '5!!', {})], expect=[('reject',), None, ('ast', 'Postfix(Literal(Number(5)), "!!")')]),
   dict(name='word_postfix_registered_after_use', steps=[('parse', '3 squared', {}), ('reg_postfix', 'squared', dict(tag='sq')), ('parse', '3 squared', {})],
        expect=[('ast', 'Stmt([Literal(Number(3)), Reference("squared")])'), None, ('ast', 'Postfix(Literal(Number(3)), "squared")')]),
